@@ -37,7 +37,7 @@ type Master struct {
 
 // ReadMaster returns sqlite_master ordered by (type, name), internal sqlite_ objects excluded.
 func ReadMaster(db *sql.DB) ([]Master, error) {
-	rows, err := db.Query("SELECT type, name, tbl_name, IFNULL(sql,'') FROM sqlite_master WHERE name NOT LIKE 'sqlite_%' ORDER BY type, name")
+	rows, err := db.Query("SELECT type, name, tbl_name, IFNULL(sql,'') FROM sqlite_master WHERE name NOT LIKE 'sqlite\\_%' ESCAPE '\\' ORDER BY type, name")
 	if err != nil {
 		return nil, err
 	}
